@@ -1,14 +1,22 @@
 """C17 - feature matching returns a valid one-to-one pairing.
 
 Functions under contract:
-  emd.cycles._unique_inds : uni strictly increasing, every uni[j] occurs in the input, and inds[j] is exactly the list of
+  emd.cycles._unique_inds : uni strictly increasing, every uni[j] occurs in the input AND every input value occurs in uni (least-index
+                            induction, lemmas least-index:base / :step), and inds[j] is exactly the (non-empty) list of
                             positions r *of the original array* with ar[r] == uni[j]   (np.sort / np.where: assumed contracts)
-  emd.cycles.kdt_match    : the final selection loop and the return statement, for an ARBITRARY assignment matrix II
-                            (the greedy column loop is abstracted: havoc + no invariant; its body is not verified):
-                            equal lengths, x indices strictly increasing and in range, every y index in [0, len(y)),
-                            each y index among the K neighbours the tree returned for its partner, and no pair farther
-                            apart than distance_upper_bound  (scipy cKDTree.query: assumed contract, K enumerated).
-Injectivity of the y indices depends on the greedy loop: decided by the bounded stand-in only.
+  emd.cycles.kdt_match    : the whole function (K enumerated; scipy cKDTree.query: assumed contract; _unique_inds: called through
+                            the contract proved above):
+                            - greedy column-by-column assignment loop, cut with the invariants
+                                 marks in different x rows never carry the same y row     (=> one-to-one)
+                                 every marked y row is recorded in `selected`
+                                 marks are 0 or 1
+                              The loop body runs on symbolic lists: the three comprehensions in closure form, `u in selected` on a
+                              ghost set, np.argmin as a Skolem function of its argument, the scatter store
+                              uni_matches[closest_uni_inds] = ... with an arbitrary index list.
+                            - final selection loop and return statement:
+                              equal lengths, x indices strictly increasing and in range, every y index in [0, len(y)), NO y ROW TWICE,
+                              each y index among the K neighbours the tree returned for its partner, and no pair farther apart than
+                              distance_upper_bound.
 """
 import builtins
 import itertools
@@ -19,15 +27,16 @@ from pyvc.verify import Unit
 
 PROPERTY = 'C17'
 LEVEL = 'proof'
-FUNCTIONS = ['emd.cycles._unique_inds', 'emd.cycles.kdt_match (final loop and return; greedy loop abstracted)']
+FUNCTIONS = ['emd.cycles._unique_inds', 'emd.cycles.kdt_match (whole function: greedy assignment loop, final loop, return)']
 ASSUMPTIONS = [
     'floats are mathematical reals; numpy ints unbounded',
-    'assumed numpy contracts (cross-checked natively): sort (non-decreasing permutation), where (as a function of the compared value), boolean-mask gather, != on shifted slices, argmax(axis=1), sum, zeros, unique (shape only)',
+    'assumed numpy contracts (cross-checked natively): sort (non-decreasing permutation), where (as a function of the compared value), boolean-mask gather, != on shifted slices, argmax(axis=1), argmin (an index in range holding a minimum; a function of its argument), sum, sum(mask, axis=1) (per-row count: 0..ncols, positive iff the row has a True entry), out[index_list] = values (position r written iff r is in the list, with the value of some occurrence), int_array != inf (all True), zeros, unique (shape only)',
     'assumed scipy contract: cKDTree(y).query(x, k=K, distance_upper_bound=b) returns D, inds of shape (n,K) ((n,) when K == 1) with 0 <= inds <= len(y) and inds < len(y) => D <= b',
-    'kdt_match: the greedy column-by-column assignment loop is ABSTRACTED (its effect on II is arbitrary; its body is not verified) - injectivity of the y indices is therefore bounded-only',
-    '_unique_inds: "every input value is represented in uni" needs a least-index induction: bounded stand-in only',
+    'kdt_match calls _unique_inds through its contract (modular): the clauses assumed at the call site are the postconditions the unit _unique_inds discharges',
+    '`selected` (a python list used as a set: extend / in) is a ghost set; `a in b` is rewritten mechanically to a call that answers natively for native operands',
+    '_unique_inds: "every input value is represented in uni" rests on a least-index induction over the sorted copy (start of the run of equal values): base and step are lemmas of this check (least-index:base / :step); the induction principle itself is applied by the harness, which assumes the claim for every position',
 ]
-NOT_COVERED = ['injectivity of y indices (no row of y matched twice): bounded stand-in only', '_unique_inds completeness (every value represented): bounded stand-in only']
+NOT_COVERED = ['"closest claimant wins" (which of several x rows gets a contested y row) is not part of the property and is not specified']
 
 N = z3.Int('N')
 NX = z3.Int('NX')
@@ -62,8 +71,45 @@ def _post_ui(c, a, kw, ret):
     c.oblige('post:inds-point-at-their-value-in-the-ORIGINAL-array', z3.Implies(z3.And(rng, 0 <= q, q < item.shape_e[0]),
                                                                                  z3.And(0 <= item.elem(q), item.elem(q) < N, A(item.elem(q)) == uni.elem(j))), 'post')
     c.oblige('post:inds-increasing', z3.Implies(z3.And(rng, 0 <= q, q < q2, q2 < item.shape_e[0]), item.elem(q) < item.elem(q2)), 'post')
+    c.oblige('post:every-index-list-nonempty', z3.Implies(rng, item.shape_e[0] >= 1), 'post')
     qq = z3.Int('wit_q')
     c.oblige('post:inds-complete', z3.Implies(z3.And(rng, 0 <= r, r < N, A(r) == uni.elem(j)), z3.Exists([qq], z3.And(0 <= qq, qq < item.shape_e[0], item.elem(qq) == r))), 'post')
+    # completeness of the value list: every input value is represented.  uni = aux[mask] with aux the sorted input and mask[i] = "aux[i] starts
+    # a run of equal values"; the run of position p starts at FIRST(p), defined by recursion, and FIRST(p) <= p carries the value of p and
+    # is marked - an induction over p whose base and step are the lemmas `least-index:*` of this check (the induction principle itself is
+    # applied here, by the harness)
+    g = getattr(uni, 'gather_of', None)
+    srt = getattr(g[0], 'sorted_from', None) if g is not None else None
+    pos = getattr(g[1], 'pos', None) if g is not None else None
+    rr2 = z3.Int('ur2')
+    if srt is not None and pos is not None:
+        S = g[0].elem
+        old, PERM, INV = srt
+        FIRST = c.fresh_fun('first', I, I)
+        pp = z3.Int('fp')
+        c.assume(FIRST(0) == 0)
+        c.assume(z3.ForAll([pp], z3.Implies(pp >= 1, FIRST(pp) == z3.If(S(pp) != S(pp - 1), pp, FIRST(pp - 1))), patterns=[FIRST(pp)]), feas=False)
+        c.assume(z3.ForAll([pp], z3.Implies(z3.And(0 <= pp, pp < N), _first_claim(S, FIRST, pp)), patterns=[FIRST(pp)]), feas=False)
+        jw = pos(FIRST(INV(rr2)))
+        c.oblige('post:every-input-value-is-represented', z3.Implies(z3.And(0 <= rr2, rr2 < N), z3.And(0 <= jw, jw < L, uni.elem(jw) == A(rr2))), 'post')
+    else:
+        jx = z3.Int('wit_jx')
+        c.oblige('post:every-input-value-is-represented', z3.Implies(z3.And(0 <= rr2, rr2 < N), z3.Exists([jx], z3.And(0 <= jx, jx < L, uni.elem(jx) == A(rr2)))), 'post')
+
+
+def _first_claim(S, FIRST, p):
+    f = FIRST(p)
+    return z3.And(0 <= f, f <= p, S(f) == S(p), z3.Or(f == 0, S(f) != S(f - 1)))
+
+
+def lemmas(tier):
+    """least-index induction used by _unique_inds' completeness clause: FIRST(0) = 0, FIRST(p) = p if S(p) != S(p-1) else FIRST(p-1);
+    claim(p): 0 <= FIRST(p) <= p, S(FIRST(p)) = S(p), and FIRST(p) is 0 or differs from its predecessor"""
+    S = z3.Function('lemS', I, I)
+    FIRST = z3.Function('lemFIRST', I, I)
+    p = z3.Int('lemp')
+    return [('least-index:base', [FIRST(0) == 0], _first_claim(S, FIRST, z3.IntVal(0))),
+            ('least-index:step', [p >= 1, _first_claim(S, FIRST, p - 1), FIRST(p) == z3.If(S(p) != S(p - 1), p, FIRST(p - 1))], _first_claim(S, FIRST, p))]
 
 
 class KDTreeStub:
@@ -116,21 +162,93 @@ def _mk_kdt(K, F, bounded):
     return mk
 
 
+def unique_inds_stub(ar):
+    """emd.cycles._unique_inds at its call site in kdt_match, by its CONTRACT: every clause assumed here is a postcondition the unit
+    '_unique_inds' discharges on the real function (same names)."""
+    c = core.C()
+    if not (isinstance(ar, SArr) and ar.ndim == 1 and ar.kind == 'i'):
+        raise core.Unsupported('_unique_inds contract stub: argument is not a 1-d integer array')
+    n = ar.shape_e[0]
+    A, _ = ar._snapshot()
+    L = c.fresh('nuniq', I)
+    U = c.fresh_fun('uniq', I, I)
+    UL = c.fresh_fun('ulen', I, I)
+    UI = c.fresh_fun('upos', I, I, I)
+    UP = c.fresh_fun('urank', I, I, I)
+    j, j2, q, q2, r = z3.Ints('sj sj2 sq sq2 sr')
+    c.assume(L >= 0)
+    # post:uni-strictly-increasing
+    c.assume(z3.ForAll([j, j2], z3.Implies(z3.And(0 <= j, j < j2, j2 < L), U(j) < U(j2)), patterns=[z3.MultiPattern(U(j), U(j2))]), feas=False)
+    # post:every-index-list-nonempty
+    c.assume(z3.ForAll([j], z3.Implies(z3.And(0 <= j, j < L), UL(j) >= 1), patterns=[UL(j)]), feas=False)
+    # post:inds-point-at-their-value-in-the-ORIGINAL-array  (with q = 0 and the clause above: post:uni-values-occur-in-input)
+    c.assume(z3.ForAll([j, q], z3.Implies(z3.And(0 <= j, j < L, 0 <= q, q < UL(j)), z3.And(0 <= UI(j, q), UI(j, q) < n, A(UI(j, q)) == U(j))), patterns=[UI(j, q)]), feas=False)
+    # post:inds-increasing
+    c.assume(z3.ForAll([j, q, q2], z3.Implies(z3.And(0 <= j, j < L, 0 <= q, q < q2, q2 < UL(j)), UI(j, q) < UI(j, q2)), patterns=[z3.MultiPattern(UI(j, q), UI(j, q2))]), feas=False)
+    # post:inds-complete (witness function: the rank of row r among the occurrences of its value)
+    c.assume(z3.ForAll([j, r], z3.Implies(z3.And(0 <= j, j < L, 0 <= r, r < n, A(r) == U(j)), z3.And(0 <= UP(j, r), UP(j, r) < UL(j), UI(j, UP(j, r)) == r)), patterns=[UP(j, r)]), feas=False)
+    uni = SArr((L,), lambda k: U(k), 'i', incr=True)
+
+    def item(jj):
+        je = lift(jj)
+        it = SArr((UL(je),), lambda k: UI(je, k), 'i', incr=True)
+        it.nonneg = True
+        return it
+    c.ghost['unique_inds_calls'] = c.ghost.get('unique_inds_calls', 0) + 1
+    return uni, core.SymList(L, item)       # post:one-index-list-per-unique-value
+
+
 def _valid_final(e, r):
     """what the return statement needs of final[r] (stated in terms of the property, not of the selection expression):
-    -1, or a row of y that is one of the K neighbours returned for x row r (within the distance bound)"""
+    -1, or a row of y that is one of the K neighbours returned for x row r (within the distance bound) AND that the greedy
+    assignment marked for this row (II != 0)"""
     DD, II_, kk, b = core.C().ghost['query']
     ny = e.y.shape_e[0]
     v = e.final.elem(r)
     jj = z3.Int('inv_j%d' % next(core._buf_ids))
-    nb = z3.And(0 <= jj, jj < kk, v == II_(r, jj))
+    nb = z3.And(0 <= jj, jj < kk, v == II_(r, jj), e.II.elem(r, jj) != 0)
     if b is not None:
         nb = z3.And(nb, DD(r, jj) <= b)
     return z3.Or(v == -1, z3.And(0 <= v, v < ny, z3.Exists([jj], nb)))
 
 
+def _marks(e):
+    nx, kk = e.II.shape_e
+    r1, c1, r2, c2 = z3.Ints('ir1 ic1 ir2 ic2')
+    rng = z3.And(0 <= r1, r1 < nx, 0 <= r2, r2 < nx, 0 <= c1, c1 < kk, 0 <= c2, c2 < kk)
+    return nx, kk, r1, c1, r2, c2, rng
+
+
+def _inv_injective(e):
+    """two marks in different rows never carry the same y row"""
+    nx, kk, r1, c1, r2, c2, rng = _marks(e)
+    m1, m2 = e.II.elem(r1, c1), e.II.elem(r2, c2)
+    pats = [z3.MultiPattern(m1, m2)] if (core._pat_ok_core(m1, [r1, c1]) and core._pat_ok_core(m2, [r2, c2])) else []
+    return z3.ForAll([r1, c1, r2, c2], z3.Implies(z3.And(rng, r1 != r2, m1 != 0, m2 != 0), e.inds.elem(r1, c1) != e.inds.elem(r2, c2)), patterns=pats)
+
+
+def _inv_selected(e):
+    """every marked y row has been recorded in `selected`"""
+    nx, kk, r1, c1, r2, c2, rng = _marks(e)
+    sel = core.SymSet.of(e.selected)
+    m1 = e.II.elem(r1, c1)
+    pats = [m1] if core._pat_ok_core(m1, [r1, c1]) else []
+    return z3.ForAll([r1, c1], z3.Implies(z3.And(0 <= r1, r1 < nx, 0 <= c1, c1 < kk, m1 != 0), sel(e.inds.elem(r1, c1))), patterns=pats)
+
+
+def _inv_01(e):
+    nx, kk, r1, c1, r2, c2, rng = _marks(e)
+    m1 = e.II.elem(r1, c1)
+    pats = [m1] if core._pat_ok_core(m1, [r1, c1]) else []
+    return z3.ForAll([r1, c1], z3.Implies(z3.And(0 <= r1, r1 < nx, 0 <= c1, c1 < kk), z3.Or(m1 == 0, m1 == 1)), patterns=pats)
+
+
 _loops_kdt = {
-    0: {'abstract': True, 'inv': [], 'decl': {}},
+    # the greedy column-by-column assignment
+    0: {'inv': [('marked-y-rows-pairwise-distinct-across-x-rows', _inv_injective),
+                ('marked-y-rows-are-recorded-as-selected', _inv_selected),
+                ('marks-are-0-or-1', _inv_01)],
+        'decl': {'selected': lambda e: core.SymSet.fresh('selected')}},
     1: {'inv': [('final-prefix-valid', lambda e: forall(0, e.ii, lambda r: _valid_final(e, lift(r)))),
                 ('shape', lambda e: e.final.shape[0] == e.II.shape[0])]},
 }
@@ -152,6 +270,7 @@ def _post_kdt(K, bounded):
         if b is not None:
             nb = z3.And(nb, DD(x_inds.elem(k), jj) <= b)
         c.oblige('post:partner-among-K-neighbours' + ('-and-within-distance-bound' if b is not None else ''), z3.Implies(rng, z3.Exists([jj], nb)), 'post')
+        c.oblige('post:no-y-row-twice', z3.Implies(z3.And(0 <= k, k < k2, k2 < L), y_inds.elem(k) != y_inds.elem(k2)), 'post')
     return post
 
 
@@ -168,7 +287,7 @@ def units(tier):
             if not bounded and K > 2:
                 continue
             u = Unit('kdt_match[K=%d,%s]' % (K, 'bounded' if bounded else 'inf'), 'emd/cycles.py', 'kdt_match', _mk_kdt(K, 2, bounded), _post_kdt(K, bounded),
-                     loops=_loops_kdt, module=EC, ns={'__builtins__': bi},
+                     loops=_loops_kdt, module=EC, ns={'__builtins__': bi, '_unique_inds': unique_inds_stub},
                      observables=[{'kind': 'scalar', 'name': 'NX'}, {'kind': 'scalar', 'name': 'NY'}])
             u.meta = {'K': K}
             U.append(u)
